@@ -30,6 +30,16 @@ type Config struct {
 	// OutOfDomain lets a backend discard executions on which the target language leaves the result
 	// open although WGSL defines it (C05: integer division by zero, …).
 	OutOfDomain func(e *wref.Events) string
+	// PreOpts, when set, replaces DrawOpts: options are drawn before the reference
+	// run and may configure it (bounds-check policy semantics, C15).
+	PreOpts func(*rapid.T) (map[string]string, func(*wref.Config))
+	// NonTrivial overrides the C01 non-triviality rule.
+	NonTrivial func(*wref.Result) bool
+	// Retry lets a check accept an alternative reference semantics (C15 "restrict": any in-bounds
+	// element is acceptable; negative indices may clamp to either end): it returns further
+	// reference configurations to try when the first comparison fails.
+	Retry []func(*wref.Config)
+	gcLast *wgen.ExecCase
 }
 
 // Off returns the exclusion predicate: a construct is off when an open
@@ -110,7 +120,12 @@ func (c *Config) Prop(t *testing.T) {
 			}
 			return ""
 		}
-		xc, res, discard, err := xrun.Build(gc, nil, disc)
+		var preOpts map[string]string
+		var cfgMod func(*wref.Config)
+		if c.PreOpts != nil {
+			preOpts, cfgMod = c.PreOpts(t)
+		}
+		xc, res, discard, err := xrun.Build(gc, cfgMod, disc)
 		if err != nil {
 			ev.Inconclusive("reference evaluator failed on a generated program: " + err.Error())
 			t.Fatalf("harness: %v\n%s", err, gc.Src)
@@ -120,10 +135,18 @@ func (c *Config) Prop(t *testing.T) {
 			ev.Eval(ev.HashS(gc.Src), false)
 			return
 		}
-		xc.Opts = c.DrawOpts(t)
+		if preOpts != nil {
+			xc.Opts = preOpts
+		} else {
+			xc.Opts = c.DrawOpts(t)
+		}
 		o := c.Run(xc)
 		raw, _ := json.Marshal(xc.Opts)
-		nt := xrun.NonTrivial(res) && o.Rejected == "" && o.Unsupported == ""
+		nt := xrun.NonTrivial(res)
+		if c.NonTrivial != nil {
+			nt = c.NonTrivial(res)
+		}
+		nt = nt && o.Rejected == "" && o.Unsupported == ""
 		ev.Eval(ev.HashS(xc.WGSL, fmt.Sprint(xc.Buffers), string(raw)), nt)
 		for _, k := range gc.Classes {
 			ev.Class("gen:" + k)
@@ -159,6 +182,21 @@ func (c *Config) Prop(t *testing.T) {
 			t.Fatalf("%s\n%s\n---- emitted ----\n%s", msg, xc.WGSL, clip(o.Text))
 		}
 		if ok, msg := xc.Compare(o.Buffers); !ok {
+			for _, alt := range c.Retry {
+				alt := alt
+				xa, _, d, e := xrun.Build(gc, func(w *wref.Config) {
+					if cfgMod != nil {
+						cfgMod(w)
+					}
+					alt(w)
+				}, disc)
+				if e == nil && d == "" {
+					if ok2, _ := xa.Compare(o.Buffers); ok2 {
+						ev.Class("accepted-alternative-semantics")
+						return
+					}
+				}
+			}
 			ev.Fail(c.Check, xc, msg)
 			t.Fatalf("%s\n%s\n---- emitted ----\n%s", msg, xc.WGSL, clip(o.Text))
 		}
